@@ -1351,12 +1351,15 @@ func (enc *VP8Encoder) EncodeFrame() ([]byte, error) {
 	if doSearch && maxPasses < 3 {
 		maxPasses = 3 // ensure enough passes for rate control convergence
 	}
-	// Use parallel encoding when:
-	// - Multiple CPU cores available (GOMAXPROCS > 1)
+	// Use the row-pipelined encoder when:
+	// (The choice must not depend on GOMAXPROCS: the pipelined and the serial
+	// algorithm produce different streams, and Encode documents that its
+	// output depends only on img and opts. With one core the pipeline simply
+	// runs with a single worker.)
 	// - Enough rows for meaningful parallelism (mbH >= 4)
 	// - Method >= 3 (RD-based mode selection, which is the hot path)
 	// - Single-pass quality mode (no rate control iteration)
-	useParallel := runtime.GOMAXPROCS(0) > 1 && enc.mbH >= 4 && enc.config.Method >= 3 && !doSearch
+	useParallel := enc.mbH >= 4 && enc.config.Method >= 3 && !doSearch
 
 	var stats ProbaStats
 	for pass := 0; pass < maxPasses; pass++ {
